@@ -364,6 +364,7 @@ func pointee(info *types.Info, body ast.Node, o types.Object) types.Object {
 var cosmosMeta = map[string]bool{"PartitionKey": true, "Swarm": true, "Type": true, "ETag": true, "Pos": true}
 
 func rulesCosmosRoundTrip(r *Run, rule string) {
+	ruleDecodeTargetFresh(r, rule)
 	n := 0
 	for _, e := range cosmosEntries {
 		m := buildCosmosMaps(r, rule, e.entry, e.typ)
@@ -637,6 +638,8 @@ func ruleCosmosBatch(r *Run, rule string) {
 // rulesCosmosSearch: searchEntry literals agree and carry the fields the search query filters on;
 // the query builder's templates are well formed.
 func rulesCosmosSearch(r *Run, rule string) {
+	ruleRetryOpUsesOwnContext(r, rule)
+	ruleCosmosSwarmWired(r, rule)
 	pkg := r.P.Pkgs[pkgCosmos]
 	if pkg == nil {
 		r.Unresolved(rule, pkgCosmos)
@@ -819,4 +822,353 @@ func lintCosmosTemplate(t searchTemplate, tags map[string]string) []string {
 		}
 	}
 	return probs
+}
+
+// ruleDecodeTargetFresh (round-3 seed C13-6): a stored document is decoded into a value made for this call. Absent
+// JSON fields (every `omitempty` field of an entry that was written empty) are left untouched by Unmarshal, so a
+// recycled decode target hands the previous document's values — another plan's Meta — to the plan being read. Per
+// Unmarshal call in the docTo* readers of the cosmosdb vault: the target is the address of a local declared in
+// the function (`var x T`, `x := T{}`), or a local holding `&T{}` / `new(T)` made in the function.
+func ruleDecodeTargetFresh(r *Run, rule string) {
+	pkg := r.P.Pkgs[pkgCosmos]
+	if pkg == nil {
+		r.Unresolved(rule, "package cosmosdb")
+		return
+	}
+	info := pkg.TypesInfo
+	n := 0
+	for _, fn := range r.P.sortedFuncs() {
+		if fn.Pkg != pkg || fn.Decl.Body == nil || !strings.HasPrefix(fn.Obj.Name(), "docTo") {
+			continue
+		}
+		if strings.HasSuffix(r.P.Fset.Position(fn.Decl.Pos()).Filename, "_test.go") {
+			continue
+		}
+		fresh := func(e ast.Expr) (bool, string) {
+			e = ast.Unparen(e)
+			var obj types.Object
+			if u, ok := e.(*ast.UnaryExpr); ok && u.Op == token.AND {
+				if _, isLit := ast.Unparen(u.X).(*ast.CompositeLit); isLit {
+					return true, ""
+				}
+				obj = ObjOf(info, u.X)
+				if obj == nil {
+					return false, ExprStr(e) + " is not the address of a local"
+				}
+				// a local of struct type declared in this function: fresh by declaration
+				if !(fn.Decl.Body.Pos() <= obj.Pos() && obj.Pos() <= fn.Decl.Body.End()) {
+					return false, ExprStr(u.X) + " is not declared in " + ShortFn(fn.Key)
+				}
+				okDecl := true
+				why := ""
+				ast.Inspect(fn.Decl.Body, func(x ast.Node) bool {
+					if as, ok := x.(*ast.AssignStmt); ok && len(as.Lhs) == len(as.Rhs) {
+						for i, l := range as.Lhs {
+							if ObjOf(info, l) == obj {
+								if _, isLit := ast.Unparen(as.Rhs[i]).(*ast.CompositeLit); !isLit {
+									okDecl, why = false, ExprStr(u.X)+" is assigned "+ExprStr(as.Rhs[i])
+								}
+							}
+						}
+					}
+					return true
+				})
+				return okDecl, why
+			}
+			obj = ObjOf(info, e)
+			if obj == nil || !(fn.Decl.Body.Pos() <= obj.Pos() && obj.Pos() <= fn.Decl.Body.End()) {
+				return false, ExprStr(e) + " is not a local made in " + ShortFn(fn.Key)
+			}
+			okDef, why, nDef := true, "", 0
+			ast.Inspect(fn.Decl.Body, func(x ast.Node) bool {
+				if as, ok := x.(*ast.AssignStmt); ok && len(as.Lhs) == len(as.Rhs) {
+					for i, l := range as.Lhs {
+						if ObjOf(info, l) != obj {
+							continue
+						}
+						nDef++
+						rhs := ast.Unparen(as.Rhs[i])
+						isNew := false
+						if u, ok := rhs.(*ast.UnaryExpr); ok && u.Op == token.AND {
+							_, isNew = ast.Unparen(u.X).(*ast.CompositeLit)
+						}
+						if c, ok := rhs.(*ast.CallExpr); ok {
+							if id, ok := ast.Unparen(c.Fun).(*ast.Ident); ok {
+								if b, ok := info.ObjectOf(id).(*types.Builtin); ok && b.Name() == "new" {
+									isNew = true
+								}
+							}
+						}
+						if !isNew {
+							okDef, why = false, ExprStr(l)+" is defined as "+ExprStr(as.Rhs[i])
+						}
+					}
+				}
+				return true
+			})
+			if nDef == 0 {
+				return false, ExprStr(e) + " is not made in " + ShortFn(fn.Key)
+			}
+			return okDef, why
+		}
+		ast.Inspect(fn.Decl.Body, func(x ast.Node) bool {
+			c, ok := x.(*ast.CallExpr)
+			if !ok || len(c.Args) < 2 {
+				return true
+			}
+			f, ok := calleeFunc(info, c)
+			if !ok || f.Name() != "Unmarshal" || f.Pkg() == nil || !strings.HasSuffix(f.Pkg().Path(), "json") {
+				return true
+			}
+			tgt := c.Args[1]
+			// only the decode of the whole document (an …Entry), not of a field of it
+			tv, ok := info.Types[tgt]
+			if !ok || !strings.HasSuffix(strings.TrimPrefix(ShortType(tv.Type), "*"), "Entry") {
+				return true
+			}
+			n++
+			okF, why := fresh(tgt)
+			r.Check(rule, "cosmos:decode-target-fresh:"+ShortFn(fn.Key), c.Pos(), okF,
+				"%s decodes the stored document into a value that was not made for this call (%s): fields absent from the document (omitempty) keep what an earlier document left there, and are handed out as the stored plan's", ShortFn(fn.Key), why)
+			return true
+		})
+	}
+	if n == 0 {
+		r.Unresolved(rule, "docTo* readers decoding an entry")
+	}
+}
+
+// ruleBatchPerAttempt (round-3 seed C14-6): operations are never added, attempt after attempt, to a transactional batch that
+// was made once. Inside a retry operation (a literal of type func(context.Context, exponential.Record) error) a
+// batch captured from outside may be executed — by value, as often as needed — but must neither receive operations
+// nor be handed on by address to a function that could add some: the second attempt would then hold every operation
+// twice, the service refuses the batch as a whole (404 on the second delete of an id, answered with 207 and a nil
+// error), and Delete reports success with everything still stored.
+func ruleBatchPerAttempt(r *Run, rule string) {
+	pkg := r.P.Pkgs[pkgCosmos]
+	if pkg == nil {
+		r.Unresolved(rule, "package cosmosdb")
+		return
+	}
+	info := pkg.TypesInfo
+	isBatch := func(t types.Type) bool {
+		return strings.HasSuffix(strings.TrimPrefix(ShortType(t), "*"), "azcosmos.TransactionalBatch")
+	}
+	n := 0
+	ord := map[string]int{}
+	for _, fn := range r.P.sortedFuncs() {
+		if fn.Pkg != pkg || fn.Decl.Body == nil {
+			continue
+		}
+		file := r.P.Fset.Position(fn.Decl.Pos()).Filename
+		if strings.HasSuffix(file, "_test.go") || strings.HasSuffix(file, "fake_storage.go") || strings.HasSuffix(file, "testing.go") {
+			continue
+		}
+		ast.Inspect(fn.Decl.Body, func(x ast.Node) bool {
+			lit, ok := x.(*ast.FuncLit)
+			if !ok {
+				return true
+			}
+			sig, ok := info.Types[lit].Type.(*types.Signature)
+			if !ok || sig.Params().Len() != 2 || !strings.HasSuffix(ShortType(sig.Params().At(1).Type()), "exponential.Record") {
+				return true
+			}
+			n++
+			ord[fn.Key]++
+			bad := ""
+			var bpos token.Pos = lit.Pos()
+			captured := func(e ast.Expr) (types.Object, bool) {
+				o := ObjOf(info, ast.Unparen(e))
+				if o == nil || !isBatch(o.Type()) {
+					return nil, false
+				}
+				return o, o.Pos() < lit.Pos() || o.Pos() > lit.End()
+			}
+			ast.Inspect(lit.Body, func(y ast.Node) bool {
+				c, ok := y.(*ast.CallExpr)
+				if !ok || bad != "" {
+					return true
+				}
+				// an operation added to a captured batch
+				if sel, ok := ast.Unparen(c.Fun).(*ast.SelectorExpr); ok {
+					if o, cap := captured(sel.X); cap && strings.HasSuffix(sel.Sel.Name, "Item") {
+						bad, bpos = "the retry operation adds an operation ("+sel.Sel.Name+") to the batch "+o.Name()+", which was made outside it", c.Pos()
+					}
+				}
+				// a captured batch handed on by address (or as a pointer)
+				for _, a := range c.Args {
+					arg := ast.Unparen(a)
+					if u, ok := arg.(*ast.UnaryExpr); ok && u.Op == token.AND {
+						if o, cap := captured(u.X); cap && bad == "" {
+							bad, bpos = "the retry operation hands the batch "+o.Name()+", made outside it, on by address to "+ExprStr(c.Fun), c.Pos()
+						}
+					} else if o, cap := captured(arg); cap && bad == "" {
+						if _, isPtr := o.Type().Underlying().(*types.Pointer); isPtr {
+							bad, bpos = "the retry operation hands the batch pointer "+o.Name()+", made outside it, on to "+ExprStr(c.Fun), c.Pos()
+						}
+					}
+				}
+				return true
+			})
+			if bad != "" {
+				bad += ": every further attempt adds the same operations again, the batch is then refused as a whole while the call reports no error"
+			}
+			r.Check(rule, "cosmos:batch-made-per-attempt:"+ShortFn(fn.Key)+"#"+itoa(ord[fn.Key]), bpos, bad == "", "%s", orOK(bad, "the retry operation only executes batches made outside it"))
+			return true
+		})
+	}
+	if n == 0 {
+		r.Unresolved(rule, "retry operations in package cosmosdb")
+	}
+}
+
+// ruleRetryOpUsesOwnContext (round-3 seed C15-5): a retry operation works under the context the retry loop hands it. The
+// cosmosdb vault classifies context errors as transient and its backoff has no attempt limit, so the only thing that
+// ends a retry loop whose operation keeps failing with "context canceled" is the loop's own context. An operation that
+// uses a captured context instead, in a loop run under a different (detached) one, is retried for ever once the
+// captured context is done: a Search/List producer stuck there never closes its stream. Per retry-operation literal
+// of package cosmosdb: if it uses a context captured from outside, every Retry call of the enclosing function must be
+// given that very context.
+func ruleRetryOpUsesOwnContext(r *Run, rule string) {
+	pkg := r.P.Pkgs[pkgCosmos]
+	if pkg == nil {
+		r.Unresolved(rule, "package cosmosdb")
+		return
+	}
+	info := pkg.TypesInfo
+	isCtx := func(t types.Type) bool { return strings.HasSuffix(ShortType(t), "context.Context") }
+	n := 0
+	ord := map[string]int{}
+	for _, fn := range r.P.sortedFuncs() {
+		if fn.Pkg != pkg || fn.Decl.Body == nil {
+			continue
+		}
+		file := r.P.Fset.Position(fn.Decl.Pos()).Filename
+		if strings.HasSuffix(file, "_test.go") || strings.HasSuffix(file, "fake_storage.go") || strings.HasSuffix(file, "testing.go") {
+			continue
+		}
+		// the contexts the Retry calls of this function run under
+		var retryCtx []ast.Expr
+		ast.Inspect(fn.Decl.Body, func(x ast.Node) bool {
+			if c, ok := x.(*ast.CallExpr); ok && len(c.Args) == 2 {
+				if f, ok := calleeFunc(info, c); ok && f.Name() == "Retry" && strings.Contains(FuncKey(f), "exponential") {
+					retryCtx = append(retryCtx, c.Args[0])
+				}
+			}
+			return true
+		})
+		ast.Inspect(fn.Decl.Body, func(x ast.Node) bool {
+			lit, ok := x.(*ast.FuncLit)
+			if !ok {
+				return true
+			}
+			sig, ok := info.Types[lit].Type.(*types.Signature)
+			if !ok || sig.Params().Len() != 2 || !strings.HasSuffix(ShortType(sig.Params().At(1).Type()), "exponential.Record") {
+				return true
+			}
+			n++
+			ord[fn.Key]++
+			bad := ""
+			var bpos token.Pos = lit.Pos()
+			ast.Inspect(lit.Body, func(y ast.Node) bool {
+				id, ok := y.(*ast.Ident)
+				if !ok || bad != "" {
+					return true
+				}
+				o, isVar := info.ObjectOf(id).(*types.Var)
+				if !isVar || !isCtx(o.Type()) || (o.Pos() >= lit.Pos() && o.Pos() <= lit.End()) {
+					return true
+				}
+				for _, rc := range retryCtx {
+					if ObjOf(info, rc) != types.Object(o) {
+						bad, bpos = "the retry operation uses the captured context "+id.Name+" while the retry loop runs under "+ExprStr(rc)+": once "+id.Name+" is done every attempt fails with a context error, which this vault treats as transient, and nothing ends the loop — a Search/List producer stuck here never closes its stream", id.Pos()
+					}
+				}
+				return true
+			})
+			r.Check(rule, "cosmos:retry-op-uses-the-loop-context:"+ShortFn(fn.Key)+"#"+itoa(ord[fn.Key]), bpos, bad == "", "%s", orOK(bad, "the operation uses the context it is given (or the loop runs under the captured one)"))
+			return true
+		})
+	}
+	if n == 0 {
+		r.Unresolved(rule, "retry operations in package cosmosdb")
+	}
+}
+
+// ruleCosmosSwarmWired (round-3 seed C15-6): every component of the cosmosdb vault that writes or filters on the swarm gets
+// the vault's swarm before it is copied anywhere. cosmosdb.New builds its components as struct VALUES and later copies
+// some of them into others (the recovery helper holds a copy of the updater); an assignment `r.X.swarm = swarm` made
+// after such a copy does not reach the copy, which then rewrites the search entries of every Running plan with an
+// empty swarm at start-up — they vanish from Search and List, and crash recovery finds nothing to resume. On every
+// path of New: no assignment to a `swarm` field of a component comes after a statement that copies that component
+// (reads it as a value on the right-hand side of an assignment or inside a composite literal).
+func ruleCosmosSwarmWired(r *Run, rule string) {
+	fn := r.fnByKey(rule, pkgCosmos+".New")
+	if fn == nil {
+		return
+	}
+	info := fn.Pkg.TypesInfo
+	type ev struct {
+		pos   token.Pos
+		comp  string // r.updater, r.creator, …
+		write bool
+	}
+	var evs []ev
+	compOf := func(e ast.Expr) string {
+		// the component path of a selector chain that ends in .swarm: everything before the last two selections stays,
+		// e.g. r.updater.planUpdater.swarm → r.updater
+		s := ExprStr(e)
+		parts := strings.Split(s, ".")
+		if len(parts) >= 2 {
+			return strings.Join(parts[:2], ".")
+		}
+		return s
+	}
+	ast.Inspect(fn.Decl.Body, func(x ast.Node) bool {
+		as, ok := x.(*ast.AssignStmt)
+		if !ok {
+			return true
+		}
+		for _, l := range as.Lhs {
+			if sel, ok := ast.Unparen(l).(*ast.SelectorExpr); ok && sel.Sel.Name == "swarm" {
+				evs = append(evs, ev{as.Pos(), compOf(sel.X), true})
+			}
+		}
+		for _, rhs := range as.Rhs {
+			ast.Inspect(rhs, func(y ast.Node) bool {
+				sel, ok := y.(*ast.SelectorExpr)
+				if !ok {
+					return true
+				}
+				tv, ok := info.Types[sel]
+				if !ok || tv.Type == nil {
+					return true
+				}
+				if _, isStruct := tv.Type.Underlying().(*types.Struct); isStruct && strings.Count(ExprStr(sel), ".") == 1 {
+					evs = append(evs, ev{as.Pos(), ExprStr(sel), false})
+				}
+				return true
+			})
+		}
+		return true
+	})
+	nW := 0
+	bad := ""
+	var bpos token.Pos = fn.Decl.Pos()
+	for _, w := range evs {
+		if !w.write {
+			continue
+		}
+		nW++
+		for _, c := range evs {
+			if !c.write && c.comp == w.comp && c.pos < w.pos && bad == "" {
+				bad, bpos = "New assigns the swarm of "+w.comp+" after "+w.comp+" was copied by value (line "+itoa(r.P.Fset.Position(c.pos).Line)+"): the copy keeps an empty swarm, and what it writes — the search entries of the plans that were Running at a restart — no longer matches the swarm filter of Search and List", w.pos
+			}
+		}
+	}
+	if nW == 0 {
+		r.Unresolved(rule, "cosmosdb.New assigns the swarm of its components")
+		return
+	}
+	r.Check(rule, "cosmos:swarm-assigned-before-components-are-copied", bpos, bad == "", "%s", orOK(bad, "every swarm assignment precedes the copies of its component"))
 }
